@@ -180,8 +180,62 @@ def stack_cases(rng, n, backends=("tokio", "uring")):
     return cases
 
 
+def eof_cases(rng, n, backends=("tokio", "uring")):
+    """the peer sends its messages and closes; the application starts reading late and slowly, so the socket's queue (RCVHWM 8) is full
+    and the session still holds decoded messages when the EOF arrives: nothing may be lost, whatever the write cuts"""
+    cases = []
+    while len(cases) < n:
+        cfg = E.mk_cfg(server=True, stype="PULL")
+        hs = E.greeting("NULL", 0) + E.ready("PUSH")
+        msgs = []
+        for i in range(rng.choice([12, 30, 60])):
+            msgs.append([{"more": False, "bytes": [i % 256] + [rng.randrange(256) for _ in range(rng.choice([0, 5, 40]))]}])
+        data = hs + msgs_bytes(msgs)
+        cuts = rng.choice([[], [len(hs)], [len(hs) + 7], [len(data) - 1], [len(hs), (len(data) - len(hs)) // 2]])
+        for be in backends:
+            o = {"RCVHWM": 8}
+            if be == "uring":
+                o["IO_URING_SESSION_ENABLED"] = 1
+            chunks, pos = [], 0
+            for k in cuts:
+                chunks.append(data[pos:pos + k])
+                pos += k
+            chunks.append(data[pos:])
+            cases.append({"k": "rawpeer", "stype": "PULL", "opts": o, "writes": [[E.raw(c)] for c in chunks if c],
+                          "gap_ms": rng.choice([0, 10]), "expect_msgs": len(msgs), "cfg": cfg, "msgs": msgs, "cuts": cuts,
+                          "hs_len": len(hs), "kind": "eof", "backend": be, "data": data, "close_after_write": True,
+                          "app_delay_ms": rng.choice([120, 250]), "app_pace_ms": rng.choice([2, 4])})
+    return cases
+
+
+SIG_ERRTAIL = "C04:messages-before-error-in-same-read-dropped"
+
+
+def errtail_cases(backends=("tokio", "uring")):
+    """a stream that ENDS IN A PROTOCOL ERROR (outside the property's quantifier, which ranges over handshake + data
+    transcripts; inside its general statement): the messages before the error are determined by the bytes, so they must not
+    depend on whether the error arrives in the same read"""
+    cases = []
+    cfg = E.mk_cfg(server=True, stype="PULL")
+    hs = E.greeting("NULL", 0) + E.ready("PUSH")
+    msgs = [[{"more": False, "bytes": [i] * 10}] for i in (1, 2, 3)]
+    bad = E.frame([5] + E.asc("ERROR") + [0], cmd=True)
+    body = msgs_bytes(msgs)
+    for be in backends:
+        o = {"IO_URING_SESSION_ENABLED": 1} if be == "uring" else {}
+        for name, chunks, gap in (("one_write", [hs + body + bad], 0), ("split", [hs, body, bad], 80), ("hs_then_rest", [hs, body + bad], 80)):
+            cases.append({"k": "rawpeer", "stype": "PULL", "opts": o, "writes": [[E.raw(c)] for c in chunks], "gap_ms": gap,
+                          "expect_msgs": 3, "cfg": cfg, "msgs": msgs, "cuts": name, "hs_len": len(hs), "kind": "errtail",
+                          "backend": be, "data": hs + body + bad})
+    return cases
+
+
 def stack_strip(c):
-    return {k: c[k] for k in ("k", "stype", "opts", "writes", "gap_ms", "expect_msgs")}
+    d = {k: c[k] for k in ("k", "stype", "opts", "writes", "gap_ms", "expect_msgs")}
+    for k in ("close_after_write", "app_delay_ms", "app_pace_ms"):
+        if k in c:
+            d[k] = c[k]
+    return d
 
 
 def stack_to_coq(c):
@@ -200,6 +254,8 @@ def stack_oracle(c, o):
 
 
 def stack_signature(c, o, msg):
+    if c.get("kind") == "errtail":
+        return SIG_ERRTAIL
     return None
 
 
@@ -218,10 +274,11 @@ def main(argv):
     C.differential(res, PROP, "eng", cases, E.case_coq, E.REQ, "eng_mismatches",
                    "(fun '(c, o, i) => eng_model c o i)", oracle, nontrivial=nontrivial, theorems_note=THEOREMS,
                    strip=strip)
-    scs = C.load_corpus(PROP, "stack") + stack_cases(rng, 40 if tier == "quick" else 300)
+    scs = C.load_corpus(PROP, "stack") + stack_cases(rng, 40 if tier == "quick" else 300) + eof_cases(rng, 12 if tier == "quick" else 80) + errtail_cases()
     for c in scs:
         res.count("stack:%s:%s" % (c["backend"], c["kind"]))
     C.differential(res, PROP, "stack", scs, stack_to_coq, E.REQ, "stack_mismatches",
                    "(fun '(c, p) => stack_model c p)", stack_oracle, nontrivial=lambda c, o: True,
-                   theorems_note="C04_actor (session forwards the engine's deliveries)", strip=stack_strip, tag="stack")
+                   theorems_note="C04_actor (session forwards the engine's deliveries), C04_session_eof_loses_nothing, C04_session_eof_segmentation_independent",
+                   strip=stack_strip, tag="stack", signature=stack_signature)
     return res.finish(assumptions=["engine level only in this check; the session actor's forwarding of engine deliveries is checked by the stack-level scenarios (see DESIGN)"])
